@@ -147,3 +147,22 @@ def dispatch_table(ctx: Ctx, impl: Func) -> dict:
                 if hs:
                     out.setdefault(k.value, hs[0])
     return out
+
+
+def value_forms(ctx: Ctx, m: Func, v: Term) -> set:
+    """The spellings of one value inside ``m``: as written, in normal form, and with private helpers looked into
+    (components of tuple-returning helpers resolved) - `failed, functions = self._gate(...)` names the same flags as
+    the `_get_failed_realizations(...)` call written inside the gate."""
+    out = {v}
+    try:
+        out.add(norm(v))
+        for eff in (False, True):
+            out.add(norm(ctx.X.force_inline(v, m, effects=eff)))
+    except Exception:  # noqa: BLE001
+        pass
+    return out
+
+
+def values_agree(ctx: Ctx, m: Func, v: Term, candidates) -> bool:
+    fv = value_forms(ctx, m, v)
+    return any(fv & value_forms(ctx, m, c) for c in candidates)
